@@ -194,9 +194,52 @@ def invOK (cfg : NCfg) (g : G) (conf : Forest) : Bool :=
 def check (cfg : NCfg) (conf : Forest) (items : List Item) : Bool :=
   (grun cfg (G.init cfg conf) (project cfg items)).clean
 
+/-! ### nesting of the enter / exit callbacks themselves (`call` … `done` intervals)
+
+"Enters parents before children, exits children before parents" also constrains the callbacks while they RUN: the
+on_enter of a state must have returned before the on_enter of one of its descendants starts, and the on_exit of a state
+must not start while the on_exit of a descendant is still running.  (Relevant where callbacks can suspend: the async
+classes.)  Judged on the FIRST on_enter / on_exit callback of every state. -/
+
+/-- an open interval: callback id, enter (true) / exit (false), the state -/
+abbrev Span := Nat × Bool × SPath
+
+structure Nest where
+  opened : List Span := []
+  enterOverlapsParent : Bool := false
+  exitOverlapsChild : Bool := false
+  deriving Repr, Inhabited
+
+def nestStep (cfg : NCfg) (n : Nest) : Item → Nest
+  | .call .onEnter c _ _ _ =>
+    match (allDefs cfg).find? fun e => e.2.onEnter.head? = some c with
+    | some e => { n with
+        opened := (c, true, e.1) :: n.opened,
+        enterOverlapsParent := n.enterOverlapsParent || n.opened.any fun o => o.2.1 && properPrefix o.2.2 e.1 }
+    | none => n
+  | .call .onExit c _ _ _ =>
+    match (allDefs cfg).find? fun e => e.2.onExit.head? = some c with
+    | some e => { n with
+        opened := (c, false, e.1) :: n.opened,
+        exitOverlapsChild := n.exitOverlapsChild || n.opened.any fun o => !o.2.1 && properPrefix e.1 o.2.2 }
+    | none => n
+  | .done c _ => { n with opened := n.opened.eraseP fun o => o.1 == c }
+  | _ => n
+
+def nestRun (cfg : NCfg) (n : Nest) (items : List Item) : Nest := items.foldl (nestStep cfg) n
+
+/-- no enter callback starts while an ancestor's is running, no exit callback starts while a descendant's is running -/
+def nestOk (cfg : NCfg) (items : List Item) : Bool :=
+  let n := nestRun cfg {} items
+  !n.enterOverlapsParent && !n.exitOverlapsChild
+
+/-- the whole monitor of C02: bookkeeping on the projected events and nesting of the callback intervals -/
+def check2 (cfg : NCfg) (conf : Forest) (items : List Item) : Bool := check cfg conf items && nestOk cfg items
+
 def verdict (cfg : NCfg) (conf : Forest) (items : List Item) : String :=
   let g := grun cfg (G.init cfg conf) (project cfg items)
-  if g.clean then "ok" else
+  let n := nestRun cfg {} items
+  if g.clean && nestOk cfg items then "ok" else
     "reject" ++ (if g.enteredWhileLive then " entered-while-active" else "")
       ++ (if g.exitedWhileDead then " exited-while-inactive" else "")
       ++ (if g.eteStale then " entered-then-exited:source-not-active" else "")
@@ -206,6 +249,8 @@ def verdict (cfg : NCfg) (conf : Forest) (items : List Item) : String :=
       ++ (if g.enterBeforeParent then " enter-before-parent" else "")
       ++ (if g.exitBeforeChild then " exit-before-child" else "")
       ++ (if g.finBad then " configuration-mismatch" else "")
+      ++ (if n.enterOverlapsParent then " enter-overlaps-parent" else "")
+      ++ (if n.exitOverlapsChild then " exit-overlaps-child" else "")
 
 end C02
 end TM
